@@ -168,13 +168,20 @@ def writeInt (e : Env) (o : WOpts) (i : Int) : List Char :=
 /-- `math.Signbit` on the bit pattern -/
 def signbit (b : UInt64) : Bool := b ≥ 0x8000000000000000
 
+/-- `startsWithExponentChar(a)`: written directly after a float, such an operator (`e`, `e1`, …) would be
+    taken for the float's exponent -/
+def startsWithExponentChar (s : List Char) : Bool :=
+  match s with
+  | [] => false
+  | c :: _ => decide (c = 'e') || decide (c = 'E')
+
 /-- `Float.WriteTerm` -/
 def writeFloat (e : Env) (o : WOpts) (b : UInt64) : List Char :=
   let openClose := isPrefixMinus o.left && !signbit b
   sp (openClose || (o.left.isSome && (signbit b || letterDigit e.cfg (opName o.left)))) ++
   (if openClose then ['('] else []) ++
   patchFloat (e.fmtFloat b) ++ (if openClose then [')'] else []) ++
-  sp (!openClose && o.right.isSome && (opName o.right = ['e'] || opName o.right = ['E']))
+  sp (!openClose && o.right.isSome && startsWithExponentChar (opName o.right))
 
 /-- `Variable.WriteTerm` for an unbound variable without a name in `variable_names` -/
 def writeVar (e : Env) (o : WOpts) (v : Nat) : List Char :=
